@@ -876,7 +876,7 @@ func check(id, tier string, workers int, wallOverride float64) int {
 	}
 
 	wallS := time.Since(start).Seconds()
-	var unreached []string
+	unreached := []string{}
 	for _, p := range wantProbes[id] {
 		if agg.Probes[p] == 0 && agg.Faults[p] == 0 {
 			unreached = append(unreached, p)
